@@ -41,9 +41,9 @@ pub const INFO: Info = Info {
            constant charge/rank columns, ion mobility present or all zero, two decoys only; a default-on family `nonfinite-feature-guarded` (fittable sets of 40..70 records in which 1..3 records carry poisson in {-inf,+inf,NaN,2.5,1.0} or \
            delta_rt_model / delta_ims_model in {+inf,-inf,negative,>1}: the guards of the feature transform must replace them, fit expected); variants that must fall back: one class empty, \
            NaN/inf in one field, ln_1p argument below -1, all records identical, single decoy (KDE bandwidth 0); non-trivial = both classes present. \
-           Default-on small streams of the known-finding families (exactly singular PSD x 1e9/1e12; non-singular SPD integer matrices x 1e5..1e9 on which the regulariser-made entry becomes the pivot; overall mean orthogonal to the class-mean \
-           difference; all features of order 1e-9) and of two observation families (block-diagonal SPD: spurious solver failure; forced \
-           fallback with poisson = -inf)",
+           Default-on small streams of the known-finding families (exactly singular PSD x 1e9/1e12;  overall mean orthogonal to the class-mean \
+           difference; all features of order 1e-9) of two regression families of the repaired pivot rule (non-singular SPD integer matrices x 1e5..1e9 on which the regulariser-made \
+           entry used to become the pivot; block-diagonal SPD on which the solver used to fail) and of one observation family (forced fallback with poisson = -inf)",
     serial: false,
 };
 
@@ -419,7 +419,7 @@ fn gen_gauss(rng: &mut Rng, tier: Tier, emit: &mut dyn FnMut(Case)) {
         let b = rand_rhs(rng, n, m, false);
         emit(Case::new(req_gauss(n, m, &a, &b)).tag("gauss").tag("ill-scaled").nontrivial(n >= 2));
         // uniformly large / small scale
-        // (exactly singular at 1e9 / 1e12 is the known finding C15-silently-wrong-singular-illscaled)
+        // (exactly singular at 1e9 / 1e12: formerly the known finding C15-silently-wrong-singular-illscaled, repaired with the pivot rule)
         let r1 = if rng.chance(1, 2) { n } else { 1.max(n - 1) };
         let s = *rng.pick(&[1e9, 1e12, 1e-9, 1e5]);
         let a: Vec<f64> = gram(rng, n, r1, 0.0, true).iter().map(|x| x * s).collect();
@@ -926,13 +926,13 @@ fn gen_finding_families(rng: &mut Rng, tier: Tier, emit: &mut dyn FnMut(Case)) {
         }
         a[n * (n + 1) + n] = 1.0 + rng.below(3) as f64;
         let b = rand_rhs(rng, n + 1, 1, true);
-        emit(Case::new(req_gauss(n + 1, 1, &a, &b)).tag("gauss").tag("observation").tag("block-diagonal-spd"));
+        emit(Case::new(req_gauss(n + 1, 1, &a, &b)).tag("gauss").tag("regression").tag("block-diagonal-spd"));
         // exactly singular integer PSD matrix at a scale that absorbs the first regularisers
         let n2 = 2 + rng.below(4);
         let s2 = *rng.pick(&[1e9, 1e12]);
         let a2: Vec<f64> = gram(rng, n2, n2 - 1, 0.0, true).iter().map(|x| x * s2).collect();
         let b2 = rand_rhs(rng, n2, 1, true);
-        emit(Case::new(req_gauss(n2, 1, &a2, &b2)).tag("gauss").tag("known-finding-family").tag("singular-psd-huge-scale"));
+        emit(Case::new(req_gauss(n2, 1, &a2, &b2)).tag("gauss").tag("regression").tag("singular-psd-huge-scale"));
         // non-singular SPD integer matrices whose first elimination step leaves an exact zero next to a
         // negative entry in column 1 (so the regulariser-made entry becomes the pivot), at scale 1e5..1e9
         {
@@ -946,7 +946,7 @@ fn gen_finding_families(rng: &mut Rng, tier: Tier, emit: &mut dyn FnMut(Case)) {
             let s3 = *rng.pick(&[1e5, 1e6, 1e9]);
             let a3: Vec<f64> = base.iter().map(|x| x * s3).collect();
             let b3 = rand_rhs(rng, 3, 1, true);
-            emit(Case::new(req_gauss(3, 1, &a3, &b3)).tag("gauss").tag("known-finding-family").tag("tiny-pivot"));
+            emit(Case::new(req_gauss(3, 1, &a3, &b3)).tag("gauss").tag("regression").tag("tiny-pivot"));
         }
         // LDA with the overall mean orthogonal to the class-mean difference (mirror-symmetric classes)
         let k = 2 + rng.below(4);
